@@ -1,3 +1,5 @@
+//go:build verif_c07
+
 package main
 
 // C07 — formula references keep denoting the same cells across structural edits.
